@@ -88,7 +88,12 @@ func (pipeline *Pipeline) directDepsMap() (map[*CallStm]map[*CallStm]struct{}, e
 func (pipeline *Pipeline) findMissingDeps(src *CallStm, deps map[*CallStm]struct{},
 	depsMap map[*CallStm]map[*CallStm]struct{}) ([]*CallStm, error) {
 	var missing []*CallStm
-	for dep := range deps {
+	// Go through the dependencies in call order, rather than map order, so
+	// that which cycle is reported does not change from run to run.
+	for _, dep := range pipeline.Calls {
+		if _, ok := deps[dep]; !ok {
+			continue
+		}
 		for transDep := range depsMap[dep] {
 			if _, ok := deps[transDep]; !ok {
 				if transDep == src {
@@ -114,7 +119,11 @@ func (pipeline *Pipeline) addNextDeps(depsMap map[*CallStm]map[*CallStm]struct{}
 	for changes {
 		extraDeps := make(map[*CallStm][]*CallStm)
 		var errs ErrorList
-		for src, deps := range depsMap {
+		for _, src := range pipeline.Calls {
+			deps := depsMap[src]
+			if len(deps) == 0 {
+				continue
+			}
 			if missing, err := pipeline.findMissingDeps(src, deps, depsMap); err != nil {
 				errs = append(errs, err)
 			} else if len(missing) > 0 {
